@@ -45,7 +45,14 @@ type HarnessSpec struct {
 	Solver  []string               `json:"solver"`
 }
 
+type SourcePatch struct {
+	File string `json:"file"`
+	From string `json:"from"`
+	To   string `json:"to"`
+}
+
 type Props struct {
+	SourcePatches map[string][]SourcePatch    `json:"source_patches"` // property id -> textual patches of /repo files applied through the overlay (threshold scaling)
 	Harnesses    []HarnessSpec                `json:"harnesses"`
 	RedirectSets map[string]map[string]string `json:"redirect_sets"`
 }
@@ -110,7 +117,21 @@ func main() {
 				args = append(args, v)
 			}
 		}
-		p, err := sym.Load(repoDir, *arch, overlay(), "./...")
+		ovr := overlay()
+		for _, h := range loadProps().Harnesses {
+			if h.Fn == parts[1] {
+				if patched, err := patchedSources(loadProps(), h.Prop); err == nil {
+					for k, v := range patched {
+						ovr[k] = v
+					}
+				} else {
+					fmt.Println("PATCH ERROR:", err)
+					os.Exit(2)
+				}
+				break
+			}
+		}
+		p, err := sym.Load(repoDir, *arch, ovr, "./...")
 		if err != nil {
 			fmt.Println("LOAD ERROR:", err)
 			os.Exit(2)
@@ -210,6 +231,28 @@ func overlay() map[string][]byte {
 	return ov
 }
 
+// patchedSources returns overlay entries for the property's threshold-scaling patches: a textually
+// patched copy of the CURRENT source file. A pattern that no longer matches is an error (never a silent pass).
+func patchedSources(ps Props, prop string) (map[string][]byte, error) {
+	out := map[string][]byte{}
+	for _, sp := range ps.SourcePatches[prop] {
+		path := filepath.Join(repoDir, sp.File)
+		b, ok := out[path]
+		if !ok {
+			var err error
+			b, err = os.ReadFile(path)
+			if err != nil {
+				return nil, err
+			}
+		}
+		if strings.Count(string(b), sp.From) != 1 {
+			return nil, fmt.Errorf("source patch for %s: pattern %q occurs %d times in %s (expected once)", prop, sp.From, strings.Count(string(b), sp.From), sp.File)
+		}
+		out[path] = []byte(strings.Replace(string(b), sp.From, sp.To, 1))
+	}
+	return out, nil
+}
+
 func loadProps() Props {
 	var ps Props
 	files, _ := filepath.Glob(filepath.Join(verifDir, "harness", "props", "*.json"))
@@ -225,6 +268,12 @@ func loadProps() Props {
 			os.Exit(2)
 		}
 		ps.Harnesses = append(ps.Harnesses, p.Harnesses...)
+		for k, v := range p.SourcePatches {
+			if ps.SourcePatches == nil {
+				ps.SourcePatches = map[string][]SourcePatch{}
+			}
+			ps.SourcePatches[k] = append(ps.SourcePatches[k], v...)
+		}
 		for k, v := range p.RedirectSets {
 			if ps.RedirectSets == nil {
 				ps.RedirectSets = map[string]map[string]string{}
@@ -401,6 +450,15 @@ func runProp(prop, tier string, workers int, debug bool, only string, noReplay b
 		return 2
 	}
 	ov := overlay()
+	patched, perr := patchedSources(ps, prop)
+	if perr != nil {
+		fmt.Printf("INCONCLUSIVE property=%s: %v\n", prop, perr)
+		writeEvidence(prop, tier, nil, time.Since(t0), 0, []string{perr.Error()})
+		return 2
+	}
+	for k, v := range patched {
+		ov[k] = v
+	}
 	progs := map[string]*sym.Program{}
 	for a := range arches {
 		p, err := sym.Load(repoDir, a, ov, "./...")
@@ -673,6 +731,13 @@ func TestVerifReplay(t *testing.T) {
 		repl[filepath.Join(repoDir, rel)] = p
 		return nil
 	})
+	if patched, err := patchedSources(loadProps(), doc.Property); err == nil {
+		for path, content := range patched {
+			np := filepath.Join(tmp, fmt.Sprintf("patched_%d.go", len(repl)))
+			os.WriteFile(np, content, 0o644)
+			repl[path] = np
+		}
+	}
 	for _, h := range loadProps().Harnesses {
 		if h.Fn == doc.Harness && h.NativeRedirect {
 			for path, content := range redirectOverlay(h.Redirect, repl) {
@@ -910,7 +975,11 @@ func redirectOverlay(redirects map[string]string, existing map[string]string) ma
 			if strings.HasSuffix(f, "_test.go") {
 				continue
 			}
-			src, err := os.ReadFile(f)
+			srcPath := f
+			if alt, ok := existing[f]; ok {
+				srcPath = alt // already replaced (e.g. by a threshold-scaling patch): patch that copy
+			}
+			src, err := os.ReadFile(srcPath)
 			if err != nil {
 				continue
 			}
